@@ -1068,6 +1068,7 @@ func ruleBoundedResultTree(c *Ctx, rule string, pkgs ...string) {
 		c.Analysed(name)
 		// the counter of accepted rows: a field that the loop increments by one
 		var countFld *types.Var
+		scannerBases := map[ssa.Value]bool{} // the object that holds the counter (the receiver, or a local once the scan is expanded into its caller)
 		for b := range loop.Blocks {
 			for _, in := range b.Instrs {
 				st, ok := in.(*ssa.Store)
@@ -1081,6 +1082,9 @@ func ruleBoundedResultTree(c *Ctx, rule string, pkgs ...string) {
 				if bo, isB := st.Val.(*ssa.BinOp); isB && bo.Op == token.ADD {
 					if lf, _ := loadedField(bo.X); sameVar(lf, f) {
 						countFld = f
+						if fa, isFA := st.Addr.(*ssa.FieldAddr); isFA {
+							scannerBases[cellKey(fa.X)] = true
+						}
 					}
 				}
 			}
@@ -1107,7 +1111,7 @@ func ruleBoundedResultTree(c *Ctx, rule string, pkgs ...string) {
 					oracle := func(v ssa.Value) (AV, bool) {
 						// the scanner itself: a named object, so that what the iteration stores into its fields
 						// (the counter) is read back
-						if len(fn.Params) > 0 && paramCopy(v, fn.Params[0]) {
+						if (len(fn.Params) > 0 && paramCopy(v, fn.Params[0])) || scannerBases[cellKey(v)] {
 							return AV{Kind: "nonnil", Sym: "alloc:scanner"}, true
 						}
 						switch x := v.(type) {
@@ -1225,4 +1229,15 @@ func ruleBoundedResultTree(c *Ctx, rule string, pkgs ...string) {
 		}
 		c.Check(ok, rule, name, p.Pos(fn.Pos()), fmt.Sprintf("after accepting a row the result tree holds min(accepted, skip+limit) rows (%d cases)", rows), why)
 	}
+}
+
+// cellKey: a value read from a local variable's cell (a variable captured by a closure lives in one) is
+// identified by the cell, so that two reads of the variable are the same object.
+func cellKey(v ssa.Value) ssa.Value {
+	if u, isU := v.(*ssa.UnOp); isU && u.Op == token.MUL {
+		if al, isAl := u.X.(*ssa.Alloc); isAl {
+			return al
+		}
+	}
+	return v
 }
